@@ -111,10 +111,14 @@ def _run(case, ctx, d, which):
     subdirs = []
     same_leaf = case['seed'][-1] % 5 == 2          # .../imec0/ks2, .../imec1/ks2: probe folders with equal names
     for p, s in enumerate(specs):
-        sd = os.path.join(d, 'imec%d' % p, 'ks2') if same_leaf else os.path.join(d, 'probe%d' % p)
+        sd = os.path.join(d, 'imec%d' % p, 'ks2') if same_leaf else os.path.join(d, ['probe%d', 'pröbe %d'][case['seed'][-1] % 2] % p)
         s.write(sd)
         subdirs.append(sd)
     out = os.path.join(d, 'merged')
+    if case['seed'][-1] % 3 == 1:
+        from pathlib import Path
+        subdirs = [Path(x) for x in subdirs]      # str and Path forms are both documented
+        out = Path(out)
     # expected stable merge
     times_l = [s.spike_samples.astype(np.int64) for s in specs]
     concat_t = np.concatenate(times_l)
@@ -133,17 +137,18 @@ def _run(case, ctx, d, which):
               cell=('k%d' % k, 'ind_' + info['dt_ind'], 'wm_' + info['mat_mode']['wm']))
     ctx.sample({'info': info, 'probes': [[s.n_spikes, s.n_channels, s.n_templates] for s in specs]}, every=31)
     f0 = {'k': min(k, 3), 'ind_dtype': info['dt_ind']}
-    before = [snapshot(sd) for sd in subdirs]
+    subdirs_s = [str(x) for x in subdirs]
+    before = [snapshot(sd) for sd in subdirs_s]
     mon = monitors.CURRENT
     if mon.fs:
-        mon.fs.watch(*subdirs)
+        mon.fs.watch(*subdirs_s)
     merger = Merger(subdirs, out)
     if k >= 2 and case['seed'][-1] % 7 == 3:
         # history: a first merge() fails at a later probe (an input file is missing), the input is repaired and
         # merge() is called again on the SAME Merger object; the retry is the one judged
         ctx.cell('failed_then_retried')
         f0 = dict(f0, retried=True)
-        victim = os.path.join(subdirs[-1], ['templates.npy', 'channel_map.npy', 'amplitudes.npy'][case['seed'][-1] % 3])
+        victim = os.path.join(subdirs_s[-1], ['templates.npy', 'channel_map.npy', 'amplitudes.npy'][case['seed'][-1] % 3])
         os.rename(victim, victim + '.away')
         r0 = call(merger.merge)
         os.rename(victim + '.away', victim)
@@ -152,7 +157,7 @@ def _run(case, ctx, d, which):
             call(r0.value.close)
     r = call(merger.merge)
     audit = mon.fs.stop() if mon.fs else []
-    after = [snapshot(sd) for sd in subdirs]
+    after = [snapshot(sd) for sd in subdirs_s]
     if not r.ok:
         ctx.violation('merge_raised', desc, 'Merger.merge() raised %r' % r.exc, dict(f0, exc=r.exc_name), tb=r.tb)
         return
@@ -162,10 +167,11 @@ def _run(case, ctx, d, which):
         # output directory) must give the same merged dataset; the second output is the one judged
         call(m.close)
         out = os.path.join(d, 'merged_again')
+        out_was_path = True
         ctx.cell('merged_twice')
         f0 = dict(f0, second_merge=True)
         r = call(lambda: Merger(subdirs, out).merge())
-        after = [snapshot(sd) for sd in subdirs]
+        after = [snapshot(sd) for sd in subdirs_s]
         if not r.ok:
             ctx.violation('merge_raised', desc, 'second Merger.merge() of the same probes raised %r' % r.exc,
                           dict(f0, exc=r.exc_name), tb=r.tb)
